@@ -628,3 +628,136 @@ Proof.
   - apply rootkinds_order_free; try assumption.
     intros k Hk. eapply r_rootkinds_in_table; eassumption.
 Qed.
+
+(* ------------------------------------------------------------------ writes of distinct files commute
+   (Template.fromdir lists a template directory unsorted; the templates are then written one file per name) *)
+Lemma last_op_notin : forall n ops, ~ In n (map op_name ops) -> last_op n ops = None.
+Proof.
+  intros n. induction ops as [|x r IH]; intros H; cbn [last_op]; [reflexivity|].
+  rewrite IH by (intros Hr; apply H; right; exact Hr).
+  rewrite text_eqb_neq; [reflexivity|]. intros E. apply H. left. exact E.
+Qed.
+
+Lemma last_op_in_nodup : forall ops o, NoDup (map op_name ops) -> In o ops -> last_op (op_name o) ops = Some o.
+Proof.
+  induction ops as [|x r IH]; intros o Hn Hin; [destruct Hin|].
+  cbn [map] in Hn. inversion Hn as [|? ? Hx Hr]; subst. cbn [last_op].
+  destruct Hin as [<-|Hin].
+  - rewrite (last_op_notin _ _ Hx). rewrite text_eqb_refl. reflexivity.
+  - rewrite (IH o Hr Hin). reflexivity.
+Qed.
+
+Lemma last_op_perm : forall ops1 ops2 n, Permutation ops1 ops2 -> NoDup (map op_name ops1) ->
+  last_op n ops1 = last_op n ops2.
+Proof.
+  intros ops1 ops2 n Hp Hn.
+  assert (Hn2 : NoDup (map op_name ops2)) by (eapply Permutation_NoDup; [apply Permutation_map; exact Hp|exact Hn]).
+  destruct (last_op n ops1) as [o|] eqn:E.
+  - apply last_op_some in E as [Hi Hname]. subst n. symmetry. apply last_op_in_nodup; [exact Hn2|].
+    eapply Permutation_in; eassumption.
+  - symmetry. apply last_op_notin. intros Hin. apply (last_op_none n ops1 E).
+    eapply Permutation_in; [apply Permutation_sym, Permutation_map; exact Hp|exact Hin].
+Qed.
+
+Lemma in_flat_map_perm : forall {A B} (f : A -> list B) l1 l2 x,
+  Permutation l1 l2 -> In x (flat_map f l1) -> In x (flat_map f l2).
+Proof.
+  intros A B f l1 l2 x Hp Hin. apply in_flat_map in Hin as [a [Ha Hx]]. apply in_flat_map.
+  exists a. split; [eapply Permutation_in; eassumption|exact Hx].
+Qed.
+
+Theorem writes_commute : forall ops1 ops2 d,
+  Permutation ops1 ops2 -> NoDup (map op_name ops1) ->
+  (forall n, In n (write_names ops1) -> ~ In n (relink_names ops1)) ->
+  symlinks_in d (relink_names ops1) ->
+  same_dir (apply_ops ops1 d) (apply_ops ops2 d).
+Proof.
+  intros ops1 ops2 d Hp Hn HW Hs n.
+  rewrite (apply_ops_no_write_through (relink_names ops1) ops1 d HW (fun _ H => H) Hs).
+  rewrite (apply_ops_no_write_through (relink_names ops1) ops2 d).
+  - rewrite !lookup_fold_step'. rewrite (last_op_perm ops1 ops2 n Hp Hn). reflexivity.
+  - intros k Hk. apply HW. unfold write_names in *. eapply in_flat_map_perm; [apply Permutation_sym; exact Hp|exact Hk].
+  - intros k Hk. unfold relink_names in *. eapply in_flat_map_perm; [apply Permutation_sym; exact Hp|exact Hk].
+  - exact Hs.
+Qed.
+
+(* ------------------------------------------------------------------ TemplateLookup: a template directory whose names are
+   distinct case-insensitively gives the same lookup (as a map) for every listing order *)
+Section TemplateProofs.
+  Variable lower : text -> text.
+  Notation key := (fun t : tmpl => lower (fst t)).
+
+  Lemma tl_lookup_add_same : forall lk t,
+    tl_lookup (lower (fst t)) (tl_add lower lk t) =
+    Some (match tl_lookup (lower (fst t)) lk with Some old => fst old | None => fst t end, snd t).
+  Proof.
+    intros lk t. induction lk as [|[k old] r IH]; cbn [tl_add tl_lookup].
+    - rewrite text_eqb_refl. destruct t; reflexivity.
+    - destruct (text_eqb k (lower (fst t))) eqn:E; cbn [tl_lookup]; rewrite E; [reflexivity|exact IH].
+  Qed.
+
+  Lemma tl_lookup_add_other : forall lk t k, k <> lower (fst t) ->
+    tl_lookup k (tl_add lower lk t) = tl_lookup k lk.
+  Proof.
+    intros lk t k Hk. induction lk as [|[k' old] r IH]; cbn [tl_add tl_lookup].
+    - rewrite text_eqb_neq by congruence. reflexivity.
+    - destruct (text_eqb k' (lower (fst t))) eqn:E; cbn [tl_lookup].
+      + apply text_eqb_eq in E. subst k'. rewrite (text_eqb_neq (lower (fst t)) k) by congruence. reflexivity.
+      + destruct (text_eqb k' k); [reflexivity|exact IH].
+  Qed.
+
+  Lemma find_key_notin : forall (l : list tmpl) k, ~ In k (map key l) -> find (fun u => text_eqb (key u) k) l = None.
+  Proof.
+    induction l as [|u r IH]; intros k H; cbn [find]; [reflexivity|].
+    rewrite text_eqb_neq by (intros E; apply H; left; exact E). apply IH. intros Hr. apply H. right. exact Hr.
+  Qed.
+
+  Lemma tl_lookup_load : forall (l : list tmpl) base k, NoDup (map key l) ->
+    tl_lookup k (fold_left (tl_add lower) l base) =
+    match find (fun u => text_eqb (key u) k) l with
+    | Some t => Some (match tl_lookup k base with Some old => fst old | None => fst t end, snd t)
+    | None => tl_lookup k base
+    end.
+  Proof.
+    induction l as [|t r IH]; intros base k Hn; cbn [fold_left find]; [reflexivity|].
+    cbn [map] in Hn. inversion Hn as [|? ? Ht Hr]; subst. rewrite (IH _ _ Hr).
+    destruct (text_eqb (lower (fst t)) k) eqn:E.
+    - apply text_eqb_eq in E. subst k. rewrite (find_key_notin r _ Ht). apply tl_lookup_add_same.
+    - rewrite tl_lookup_add_other by (intros ->; rewrite text_eqb_refl in E; discriminate). reflexivity.
+  Qed.
+
+  Lemma find_key_in_nodup : forall (l : list tmpl) t, NoDup (map key l) -> In t l ->
+    find (fun u => text_eqb (key u) (key t)) l = Some t.
+  Proof.
+    induction l as [|u r IH]; intros t Hn Hin; [destruct Hin|].
+    cbn [map] in Hn. inversion Hn as [|? ? Hu Hr]; subst. cbn [find].
+    destruct Hin as [<-|Hin]; [rewrite text_eqb_refl; reflexivity|].
+    rewrite text_eqb_neq; [apply IH; assumption|].
+    intros E. apply Hu. cbn beta in E. rewrite E. apply (in_map key). exact Hin.
+  Qed.
+
+  Lemma find_key_perm : forall (l1 l2 : list tmpl) k, Permutation l1 l2 -> NoDup (map key l1) ->
+    find (fun u => text_eqb (key u) k) l1 = find (fun u => text_eqb (key u) k) l2.
+  Proof.
+    intros l1 l2 k Hp Hn.
+    assert (Hn2 : NoDup (map key l2)) by (eapply Permutation_NoDup; [apply Permutation_map; exact Hp|exact Hn]).
+    destruct (find (fun u => text_eqb (key u) k) l1) as [t|] eqn:E.
+    - apply find_some in E as [Hi Hk]. apply text_eqb_eq in Hk. subst k. symmetry.
+      apply find_key_in_nodup; [exact Hn2|eapply Permutation_in; eassumption].
+    - symmetry. apply find_key_notin. intros Hin. apply in_map_iff in Hin as [u [Hu Hin]].
+      assert (Hin1 : In u l1) by (eapply Permutation_in; [apply Permutation_sym; exact Hp|exact Hin]).
+      pose proof (find_none _ _ E u Hin1) as Hf. cbn beta in Hf. rewrite Hu, text_eqb_refl in Hf. discriminate.
+  Qed.
+
+  Theorem load_dir_order_free : forall (pi1 pi2 : list tmpl -> list tmpl) files base,
+    perm_oracle pi1 -> perm_oracle pi2 -> NoDup (map key files) ->
+    forall k, tl_lookup k (load_dir lower pi1 files base) = tl_lookup k (load_dir lower pi2 files base).
+  Proof.
+    intros pi1 pi2 files base H1 H2 Hn k. unfold load_dir.
+    assert (Hn1 : NoDup (map key (pi1 files))) by (eapply Permutation_NoDup; [apply Permutation_map, Permutation_sym, H1|exact Hn]).
+    assert (Hn2 : NoDup (map key (pi2 files))) by (eapply Permutation_NoDup; [apply Permutation_map, Permutation_sym, H2|exact Hn]).
+    rewrite !tl_lookup_load by assumption.
+    rewrite (find_key_perm (pi1 files) (pi2 files) k); [reflexivity| |exact Hn1].
+    eapply perm_trans; [apply H1|apply Permutation_sym, H2].
+  Qed.
+End TemplateProofs.
